@@ -470,3 +470,43 @@ REGISTRY["C08"]["partial_clauses"][0] = (
     "has the sign of U.L; footprint_coef_analytic ties the wave to the model's footprint-mode coefficient); that the centre of mass of the whole cropped footprint lies within a few "
     "degrees of the wind direction, for sheared profiles and arbitrary directions, is numeric (oracle, 8 degree threshold, worst observed 5.1): the half-space footprint has no finite "
     "first moment, so there is no exact infinite-domain statement to prove")
+
+# C08: reversing the wind point-reflects the footprint about the tower (field level, whole model pipeline)
+REGISTRY["C08"]["theorems"] += T("Proofs.C08d", "BLDFM.C08", ["columnNum_reverse", "columnAna_reverse", "rev_geom", "reverse_component", "reverse_point_reflection"])
+REGISTRY["C08"]["partial_clauses"][0] = (
+    "upwind clause: (i) REVERSING the wind (wd -> wd + 180, wind_opposite) point-reflects the footprint and the concentration Green's function about the tower's cell on the periodic "
+    "padded domain (reverse_point_reflection; every level, numeric and analytic, odd retained-mode counts so that every component has its partner) - whatever side the footprint lies "
+    "on for one direction it lies on the opposite side for the opposite one; (ii) for a north / south wind (u = 0 exactly, wind_cardinals) the footprint is mirror-symmetric about "
+    "the wind axis through a tower on the middle column (cardinal_footprint_symmetric): zero cross-wind offset; (iii) for height-independent profiles EVERY non-constant Fourier "
+    "component of the footprint is a plane wave whose crest nearest the tower is displaced against the wind (mode_crest_upwind / _strict, from eigval_im_sign: Im(lambda) has the "
+    "sign of U.L; footprint_coef_analytic ties the wave to the model's footprint-mode coefficient). Numeric (oracle, 8 degree threshold, worst observed 5.1): that the centre of mass "
+    "of the whole cropped footprint lies within a few degrees of the wind direction for sheared profiles and arbitrary directions - the half-space footprint has no finite first "
+    "moment, so there is no exact infinite-domain statement to prove")
+
+# C08 rests on the profiles keeping the supplied direction at every node (C09): the profile kernels and the function's statement table are its obligations too
+REGISTRY["C08"]["theorems"] += PBL_BRIDGES + T("Proofs.C09", "BLDFM.C09", ["wind_direction_constant", "wind_vector_at_meas"]) \
+    + T("Proofs.Bridge.Bodies", "BLDFM.Bridge", ["body_pbl_vertical_profiles"], "bridge")
+REGISTRY["C08"]["kernel_groups"].append("PblK")
+REGISTRY["C08"]["body_tables"].append("pbl_vertical_profiles")
+
+# C16's anchors include the drivers that iterate range(n_timesteps): the serial time-series driver's statement table is its obligation too
+REGISTRY["C16"]["theorems"] += T("Proofs.Bridge.Tables", "BLDFM.Bridge", ["table_driver_run_bldfm_timeseries"], "bridge")
+
+
+def _add_bodies(pid, names):
+    REGISTRY[pid]["theorems"] += T("Proofs.Bridge.Bodies", "BLDFM.Bridge", ["body_" + t for t in names if t not in REGISTRY[pid]["body_tables"]], "bridge")
+    REGISTRY[pid]["body_tables"] += [t for t in names if t not in REGISTRY[pid]["body_tables"]]
+    if "Bodies" not in REGISTRY[pid]["kernel_groups"]:
+        REGISTRY[pid]["kernel_groups"].append("Bodies")
+
+
+# session 4: statement tables of the remaining functions on the properties' paths (FFT wisdom / plan-cache handling, cache.clear, the output
+# section of the parser, the base functions and the percentile search as text, the KM and pbl stability helpers, the drivers as whole functions)
+_add_bodies("C12", ["fftmgr_load_wisdom", "fftmgr_save_wisdom", "fftmgr_clear_cache", "fftmgr_cleanup"])
+_add_bodies("C15", ["cache_clear", "iface_make_cache"])
+_add_bodies("C13", ["cfg_parse_output"])
+_add_bodies("C20", ["utils_sa_contribution", "utils_sa_circular", "utils_sa_upwind", "utils_sa_crosswind", "utils_sa_sector", "plot_extract_percentile_contour"])
+_add_bodies("C19", ["km_phiM", "km_phiC", "km_psiM", "km_mParam", "km_nParam"])
+_add_bodies("C09", ["pbl_psi", "pbl_phi", "km_psiM", "km_phiC"])
+_add_bodies("C14", ["iface_make_cache", "iface_run_timeseries", "iface_run_multitower", "iface_worker_single", "iface_worker_timeseries", "iface_run_parallel"])
+_add_bodies("C16", ["iface_run_timeseries"])
